@@ -63,6 +63,14 @@ def evalConc (prop : String) (ins outs : List String) : Verdict :=
       else .prop "c17_tail_delete_racing_append_gap_free" s!"head={hd} tail={tl} stored={stored} want [{to}..{n+more}]"
     | _, _, _, some d, _, _, _ => .prop "c17_no_torn_read" s!"DeleteRange over appended-and-synced headers failed while a flush raced its look-up: delete={d}"
     | _, _, _, _, _, _, _ => .bad "torn"
+  | some "resumewalk" =>
+    -- chunks appended out of order, each followed by Sync: after all writers finished the store is the sequential one
+    match kvNat? outs "head", kvNat? outs "readable", kv? outs "monitor" with
+    | some hd, some rd, some mon =>
+      if mon != "-" then .prop "c17_head_monotone" s!"monitor={mon}" else
+      if rd != 12 then .prop "c17_synced_appends_readable" s!"readable={rd} of 12" else
+      if hd != 12 then .prop "c17_equals_sequential" s!"all of 1..12 appended and synced, Height()={hd} (fault={(kv? ins "fault").getD "?"})" else .ok "resumewalk"
+    | _, _, _ => .bad "resumewalk"
   | some "syncdrain" =>
     match kv? outs "sync", kvNat? outs "head", kvNat? outs "readable", kvNat? outs "want" with
     | some "ok", some hd, some rd, some want =>
